@@ -39,6 +39,9 @@ def make_classes():
         def __init__(self, x: int) -> None:
             self.x = x
 
+        # class-level state of the user's class: must never be written
+        _yatiml_defaults = {}
+
         @classmethod
         def _yatiml_sweeten(cls, node):
             # visible only where A itself is registered with the dump function
@@ -58,6 +61,11 @@ def make_classes():
         def __init__(self, x: int, z: int = 0) -> None:
             self.x = x
             self.z = z
+
+        @classmethod
+        def _yatiml_sweeten(cls, node):
+            # looks up the defaults (signature + inherited _yatiml_defaults)
+            node.remove_attributes_with_default_values(cls)
     S1 = S
 
     class S(A2):    # noqa: same name, other hierarchy
@@ -227,7 +235,9 @@ def base_snapshot():
 
 
 def class_vars(cl):
-    return {n: tuple(sorted(vars(c).keys())) for n, c in cl.items()}
+    return {n: (tuple(sorted(vars(c).keys())),
+                repr(vars(c).get('_yatiml_defaults')))
+            for n, c in cl.items()}
 
 
 def check_function_tables(fn, kind, cs, spec_own, cl):
